@@ -143,6 +143,12 @@ V("HD1-new-index-without-has-data", "C02", "HD1",
 V("HD1-matches-keeps-no-data", "C02", "HD1",
   ("tdms_segment.py", "            # Re-use object and ensure we set has data to true for this segment\n            if not existing_object.has_data:\n                new_obj = copy(existing_object)\n                new_obj.has_data = True\n                self.ordered_objects[existing_object_index] = new_obj\n",
    "            # Re-use object and ensure we set has data to true for this segment\n            pass\n"))
+V("HD1-flag-flipped-in-place", "C02", ["HD1", "OW1"],
+  ("tdms_segment.py", "            if existing_object.has_data:\n                new_obj = copy(existing_object)\n                new_obj.has_data = False\n                self.ordered_objects[existing_object_index] = new_obj\n",
+   "            if existing_object.has_data:\n                existing_object.has_data = False\n"))
+V("HD1-reuse-no-data-keeps-flag", "C02", "HD1",
+  ("tdms_segment.py", "            if previous_segment_obj.has_data:\n                segment_obj = copy(previous_segment_obj)\n                segment_obj.has_data = False\n            else:\n                segment_obj = previous_segment_obj\n",
+   "            segment_obj = previous_segment_obj\n"))
 V("RJ1-unseen-object-not-rejected", "C02", "RJ1",
   ("tdms_segment.py", "                if raw_data_index_header == RAW_DATA_INDEX_MATCHES_PREVIOUS:\n                    raise ValueError(\"Raw data index for %s says to reuse previous structure, \"\n                                     \"but we have not seen this object before\" % object_path)\n                elif raw_data_index_header != RAW_DATA_INDEX_NO_DATA:",
    "                if raw_data_index_header not in (RAW_DATA_INDEX_MATCHES_PREVIOUS, RAW_DATA_INDEX_NO_DATA):"))
